@@ -17,8 +17,26 @@ CLAIMS = {
             'instance with float operations uninterpreted (U): output position i is exactly that operation applied to '
             'those operands, operands unchanged, shape kept; mismatches must panic. Reductions are decided as algebraic '
             'identities (R).', 'U/B/R', '§4 C04'),
-    'C08': ('Mean, Welford mean, variances, covariances, histogram centres are decided equal to their textbook definition '
-            'for every real data vector of each instance length (R); order statistics bit-precisely (B).', 'R/B', '§4 C08'),
+    'C05': ('matmul / matmul_blocked / xtx and all Dot-trait products are decided equal to the triple-sum definition for '
+            'every shape instance up to 3x3x3, all four transpose flags, block sizes, ownership forms (R); '
+            'non-conformable operands must panic.', 'R', '§4 C05'),
+    'C07': ('trapz exact on affine integrands and equal to the composite rule for arbitrary (uninterpreted) integrands; '
+            'Romberg exact on monomials up to degree 2k-1 (k<=4) incl. positive tolerances; quad5 = 10-point Gauss-Legendre '
+            'sum for arbitrary integrands plus the table moments up to degree 19; sample trapezoid = piecewise-linear '
+            'integral (R).', 'R', '§4 C07'),
+    'C08': ('Mean, Welford mean, variances, standard deviations, the four covariance algorithms and histogram centres are '
+            'decided equal to their textbook definition for every real data vector of each instance length, with shift / '
+            'scale relations (R); min/max/argmin/argmax first-occurrence semantics on finite data (R, exact for '
+            'comparison-only code).', 'R', '§4 C08'),
+    'C12': ('Every shape pair up to 3x3 (4x4 thorough) x four operators: compatible pairs give the NumPy-broadcast result '
+            'entry by entry with float operations uninterpreted (U), incompatible pairs must panic; Matrix/Vector forms.',
+            'U', '§4 C12'),
+    'C16': ('Knot reproduction, in-segment line membership (division-free statement), Fill/Extrapolate/Panic behaviour on '
+            'both sides of the range, checked-variant rejections, for 2..6 knots (R).', 'R', '§4 C16'),
+    'C17': ('logistic range/monotonicity/reflection and logit inversion with exp/ln uninterpreted + instantiated axioms; '
+            'softmax positivity, unit sum, order, shift invariance and the overflow obligation on every exp argument; '
+            'Box-Cox formulas and domains (R). binom_coeff: only k=0 is decided within the cap (symbolic 64-bit divisor '
+            'chains do not bit-blast in reach) - stated in DESIGN.md.', 'R/B', '§4 C17'),
 }
 PENDING = 'check not built yet in this round; see DESIGN.md §4 for the planned decision procedure'
 
